@@ -1600,7 +1600,7 @@ class C18(Spec):
     level_text = ('weak statistical evidence by design: detects missing, reused or grossly short masks (mask shorter than '
                   'about log2(N) bits of the k required); it cannot certify statistical distance 2^-k, which would need far '
                   'more than 2^k samples')
-    quick = {'runs': 11160, 'wall': 85}
+    quick = {'runs': 11200, 'wall': 85}
     thorough = {'runs': 3000000, 'wall': 900}
     expected_probes = ('internal_openings', 'prss_evaluations')
     rule = ('one evaluation = one simulated 3..5-party run of a small template program (comparison, lsb, mod, to_bits, '
